@@ -166,7 +166,8 @@ class ProgGen:
     """Chooses the next structured op for a Runner."""
 
     def __init__(self, rng, runner, fam, p_read=0.35, p_miss=0.2, p_ext=0.0, p_invalid=0.0,
-                 invalid_kinds=("nonstr", "other")):
+                 invalid_kinds=("nonstr", "other"), p_back=0.10):
+        self.p_back = p_back      # probability that a mutation goes BACK to an earlier content (A-B-A)
         self.rng = rng
         self.r = runner
         self.fam = fam
@@ -261,10 +262,39 @@ class ProgGen:
                 k, v = rng.choice(cands)
                 alt = [x for x in ((True, 1, 1.0) if v == 1 else (False, 0, 0.0)) if type(x) is not type(v)]
                 return ("call", h, "dsetitem" if isinstance(cur, dict) else "lsetitem", k, rng.choice(alt))
+        # going BACK: a mutation issued earlier is issued again (after other handles have written
+        # in between, the content returns to bytes it had before: A-B-A), or the node is reset to
+        # a content it had earlier
+        if not read and not self.p_invalid:
+            past = getattr(self, "_past", None)
+            if past is None:
+                past = self._past = []
+                self._snaps = {}
+            import copy as _copy
+            snaps = self._snaps.setdefault(h, [])
+            if not snaps or snaps[-1] != cur:
+                snaps.append(_copy.deepcopy(cur))
+                del snaps[:-4]
+            r = rng.random()
+            if r < 0.6 * self.p_back and past:
+                op = rng.choice(past[-8:])
+                try:
+                    tgt = self.r.target(op[1])
+                    if self._is_dict(tgt) == op[2].startswith("d"):
+                        return op
+                except Exception:  # noqa: BLE001
+                    pass
+            elif r < self.p_back and len(snaps) > 1:
+                old = rng.choice(snaps[:-1])
+                if isinstance(old, dict) == isinstance(cur, dict):
+                    return ("call", h, "dreset" if isinstance(cur, dict) else "lreset", _copy.deepcopy(old))
         if self._is_dict(obj):
             name = rng.choice(DICT_READ if read else DICT_MUT)
             if name == "dsetitem":
-                return ("call", h, name, self._mkey(cur, 0.5), self._value())
+                op = ("call", h, name, self._mkey(cur, 0.5), self._value())
+                if not self.p_invalid:
+                    self._past.append(op)
+                return op
             if name in ("ddelitem", "dgetitem", "dcontains"):
                 return ("call", h, name, self._key(cur))
             if name in ("dpop", "dget"):
